@@ -24,7 +24,7 @@ def replay_grid(clause, m):
     return {'reproduced': False, 'searched': r['bound']}
 
 
-@contract('C15/_extractObservationAtTime', ['C15', 'C11'], SIM + 'SimulateOde._extractObservationAtTime', replay=replay_grid)
+@contract('C15/_extractObservationAtTime', ['C15', 'C11', 'C05'], SIM + 'SimulateOde._extractObservationAtTime', replay=replay_grid)
 def extract(vc):
     """row k of the gridded states is the state of the path at the last recorded time not after g[k]; row 0 is the initial state when g[0] is the initial time"""
     L, G, nS = vc.int('L', ge=1), vc.int('G', ge=0), vc.int('nS', ge=1)
@@ -199,7 +199,7 @@ def tagged(shape, kind, run):
 
 
 def make_grid(exact, grid_kind):
-    @contract('C15/solve_stochast/grid/exact=%s/%s' % (exact, grid_kind), ['C15', 'C16'], SIM + 'SimulateOde.solve_stochast', replay=replay_grid)
+    @contract('C15/solve_stochast/grid/exact=%s/%s' % (exact, grid_kind), ['C15', 'C16'] + (['C05'] if exact else []), SIM + 'SimulateOde.solve_stochast', replay=replay_grid)
     def grid_runs(vc):
         nS, nE, n, G = vc.int('nS', ge=1), vc.int('nE', ge=1), vc.int('iteration', ge=0), vc.int('G', ge=2)
         x0 = vc.array('x0', (nS,))
